@@ -44,6 +44,7 @@ type Harness struct {
 	Items func(tier string) []Item
 	Reach []string // labels that must each be reached by at least one path
 	BV    bool     // integers as 64-bit bit-vectors (wrap-around), else mathematical Int
+	FP    bool     // float64 as IEEE-754 binary64 (bit-precise, implies BV), else exact reals
 	What  string   // one line for evidence
 }
 
@@ -206,13 +207,26 @@ func runCheck(args []string) int {
 	wg.Wait()
 
 	// vacuity: every declared reach label must have been reached
-	var broken []string
+	var broken, inconclusive []string
 	for hi, h := range chk.Harnesses {
 		if len(r.items[hi]) == 0 || r.stop {
 			continue // exploration was cut short (violation limit / budget): reachability is not judged
 		}
+		unsupported := ""
+		for _, u := range r.stats[hi].Undis {
+			if strings.Contains(u, "unsupported: ") {
+				unsupported = u
+				break
+			}
+		}
 		for _, l := range h.Reach {
 			if r.stats[hi].Reach[l] == 0 {
+				if unsupported != "" {
+					// the code under test uses something the encoder cannot translate: the property is not
+					// decided for this harness - an honest "don't know", neither a violation nor a broken check
+					inconclusive = append(inconclusive, fmt.Sprintf("%s: label %q not reached because of %s", h.Name, l, unsupported))
+					continue
+				}
 				broken = append(broken, fmt.Sprintf("%s: label %q never reached (vacuous harness?)", h.Name, l))
 			}
 		}
@@ -258,6 +272,9 @@ func runCheck(args []string) int {
 			fmt.Println("BROKEN:", b)
 		}
 		return 2
+	}
+	for _, m := range inconclusive {
+		fmt.Println("INCONCLUSIVE:", m)
 	}
 	if r.timedOut {
 		fmt.Println("INCOMPLETE: budget exhausted before the work list was empty; evidence states what completed")
@@ -333,7 +350,8 @@ func (r *runner) worker() {
 		}
 		ex.params, ex.sparams = it.P, it.S
 		ex.known = map[string]bool{}
-		ex.bvInts = h.BV
+		ex.bvInts = h.BV || h.FP
+		ex.fpMode = h.FP
 		res, nt := ex.RunPath(r.fns[t.h], t.trail)
 		var vrecs []violRec
 		for _, v := range res.Violations {
@@ -664,7 +682,7 @@ func modelToReplay(h Harness, it Item, model map[string]ModelVal, withFloats boo
 		if mv.Rat == nil {
 			continue
 		}
-		isFloat := strings.Contains(mv.S, ".") || strings.Contains(mv.S, "/")
+		isFloat := strings.Contains(mv.S, ".") || strings.Contains(mv.S, "/") || mv.IsFloat
 		if !isFloat && mv.Rat.IsInt() {
 			rj.Ints[name] = mv.Rat.Num().Int64()
 			continue
